@@ -134,6 +134,8 @@ def inputs_untouched(ctx, chk, f):
 
 
 def run(ctx, chk, tier):
+    own = chk.pid == "C13"   # as a prerequisite of C14 / C18 the host's own rule text and explanation stay
+    saved = (getattr(chk, "rule_text", ""), getattr(chk, "explanation", ""))
     chk.rule_text = ("one obligation per formula component (levels, bias correction, acceleration, per-component quantile, axis roles) for methods quantile/bc/bca; "
                      "non-trivial = term mentions theta/theta_hat/alpha")
     chk.explanation = ("utils.bootstrap_ci is specialised for the three methods; the derived terms (value-preserving reshapes dropped, masked gather/scatter lifted to an "
@@ -141,6 +143,8 @@ def run(ctx, chk, tier):
                        "axis; z0 = ppf(#{theta <= theta_hat}/#{not NaN}); bc: cdf(2 z0 + z_alpha); bca: a = nansum(d^3)/(6 nansum(d^2)^1.5) (0 where undefined), "
                        "cdf(z0 + s/(1 - a s)) where z0 finite; per-component nanquantile over axis 0. Axis roles of the quantile branch are inferred (replicate N, "
                        "component Y*, alpha Z, limit LH) and must arrive as Y*+Z+(LH) before the final reshape.")
+    if not own:
+        chk.rule_text, chk.explanation = saved
     chk.trusted |= {"scipy.stats.norm ppf/cdf identities (ppf(1-x) = -ppf(x))", "numpy.nanquantile(a, q, axis) result axes = q axes + remaining axes",
                     "numpy.moveaxis(source, destination)", "reshape preserves C order"}
     chk.assumptions = ["ordering / nesting / range corollaries are mathematics over the verified formula and are not separately decided"]
